@@ -121,9 +121,9 @@ def main(argv=None):
     tier = a.tier if a.tier in ("quick", "thorough") else "quick"
     prop = a.prop
     t0 = time.time()
-    try:
-        pm = importlib.import_module(f"pyvc.props.{prop.lower()}")
-    except ModuleNotFoundError:
+    from pyvc.props import table
+
+    if prop not in table.SPECS:
         print(f"no check for property {prop}")
         return 3
     if a.replay:
@@ -137,7 +137,7 @@ def main(argv=None):
         print(json.dumps(r, indent=1)[:4000])
         return 1 if r.get("reproduced") else 0
 
-    spec = pm.SPEC
+    spec = table.SPECS[prop]
     known = load_known()
     undecided, defects = [], []
     units_info, obligations, assumptions = [], [], list(GLOBAL_ASSUMPTIONS)
